@@ -1027,6 +1027,10 @@ fn make_var_heavy(r: &mut Rng, p: &mut Prog, d: &J) {
         // the argument query may carry a step that leaves it unresolved (never the erring filter:
         // both sides of this pair evaluate the query in place)
         let kq3 = if shape <= 3 || shape == 6 { kq.clone() } else { kq_plain };
+        // an (otherwise unused) file-level variable with the NAME of one of the parameters: the
+        // parameter shadows it inside the callee, the twins must still agree (no new draw: the
+        // choice follows `shape`)
+        p.lets.push(Let { name: if shape % 2 == 1 { "ty".into() } else { "tx".into() }, val: Arg::Lit(J::Str("zz outer namesake".into())) });
         p.rules.push(rule("tw3_a".into(), vec![], vec![Line { alts: vec![Clause::Call { not: false, name: "twp".into(), args: vec![Arg::Query(kq3.clone()), Arg::Lit(l3.clone())], msg: None }] }]));
         p.rules.push(rule("tw3_b".into(), vec![], vec![cmp(kq3, op3, not3, Some(rules::Rhs::Lit(l3)))]));
         // (4) the emptiness test on a parameter whose argument is an empty selection (the filter
